@@ -1,25 +1,26 @@
 (** C33 — at most one database holds a working directory at a time.
-    Any number of contenders, every schedule. *)
+    Any number of contenders, every schedule, any set [faulty] of contenders whose unlink of
+    LOCK fails during Release. *)
 From Coq Require Import List NArith.
 From NoKV Require Import Base.Sched Model.DirLock Spec.DirLockSpec Proofs.DirLockProofs.
 Import ListNotations.
 
 (** in every reachable state at most one contender is between a successful
     AcquireDirLock and the start of its Release *)
-Theorem C33_exclusive : forall n g,
-  reachable (tstep true) (init n) g ->
+Theorem C33_exclusive : forall faulty n g,
+  reachable (tstep true faulty) (init n) g ->
   forall t u i j, nth_error (g_pcs g) t = Some (PHold i) -> nth_error (g_pcs g) u = Some (PHold j) -> t = u.
 Proof. exact dirlock_exclusive. Qed.
 Print Assumptions C33_exclusive.
 
 (** the same for the observable the correspondence compares, for every schedule *)
-Theorem C33_exclusive_run : forall n sched, at_most_one (holders (run (tstep true) (init n) sched)).
+Theorem C33_exclusive_run : forall faulty n sched, at_most_one (holders (run (tstep true faulty) (init n) sched)).
 Proof. exact dirlock_exclusive_run. Qed.
 Print Assumptions C33_exclusive_run.
 
 (** the step order before the repair (unlock, close, unlink; no re-check after flock)
     lets contenders 1 and 2 hold the directory together (F29) *)
-Theorem C33_unfixed_refuted : exists n sched, holders (run (tstep false) (init n) sched) = [1; 2].
+Theorem C33_unfixed_refuted : exists n sched, holders (run (tstep false (fun _ => false)) (init n) sched) = [1; 2].
 Proof. exact dirlock_unfixed_refuted. Qed.
 Print Assumptions C33_unfixed_refuted.
 
